@@ -1,6 +1,6 @@
 //! Module implementing parsing for BIP-0032 HD paths used for key derivation.
 
-use anyhow::{Context as _, Result};
+use anyhow::{ensure, Context as _, Result};
 use std::{
     fmt::{self, Display, Formatter},
     str::FromStr,
@@ -78,8 +78,14 @@ impl FromStr for Component {
         };
 
         let value = value
-            .parse()
+            .parse::<u32>()
             .with_context(|| format!("invalid BIP-0032 path component '{s}'"))?;
+        // NOTE: BIP-0032 child indices are 31 bits, the top bit of the
+        // serialized index is the hardened flag.
+        ensure!(
+            value < 0x8000_0000,
+            "BIP-0032 path component '{s}' out of range"
+        );
 
         Ok(if hardened {
             Component::Hardened(value)
